@@ -76,6 +76,21 @@ func (c15) Gen(r *rand.Rand, tier string, run int) *core.Case {
 	for i := 0; i < n; i++ {
 		c.Ops = append(c.Ops, c15op(r, 70, true))
 	}
+	if r.IntN(2) == 0 {
+		// a second goroutine of the hosting process registers services too,
+		// often under the name the first one is registering
+		for i := 0; i < 1+r.IntN(2); i++ {
+			op := c15op(r, 71, true)
+			if op.Kind == "newservice" && r.IntN(2) == 0 {
+				for _, o := range c.Ops {
+					if o.Actor == 70 && o.Kind == "newservice" {
+						op.S = o.S
+					}
+				}
+			}
+			c.Ops = append(c.Ops, op)
+		}
+	}
 	return c
 }
 
